@@ -28,7 +28,7 @@ WATCH = (os.path.join(runner.REPO, 'clastic') + os.sep, '<sinter', '<sim chain')
 # ---------------------------------------------------------------------------
 # generation (validity rules V1-V3 of DESIGN.md 3.1)
 
-HAZARD_NAMES = ['funcs', 'endpoint', 'render', 'resp', 'BaseResponse', 'process_request', 'inject', 'ret', 'route', 'kwargs',
+HAZARD_NAMES = ['isinstance', 'isinstance', 'type', 'id', 'len', 'format', 'funcs', 'endpoint', 'render', 'resp', 'BaseResponse', 'process_request', 'inject', 'ret', 'route', 'kwargs',
                 '__traceback_hide__', 'code', 'env', 'chain']
 
 
